@@ -228,6 +228,7 @@ type c20St struct {
 	notes  []string                // conditions that could not be tied to an input (both branches explored)
 	heap   map[int]map[string]c20V // stores into struct objects of the package (see c20_sx_heap.go)
 	ctl    int
+	lbl    string // label of a labelled break/continue (ctl Brk/Cont)
 	ret    []c20V
 	retAt  *ast.ReturnStmt
 	why    string
@@ -239,7 +240,7 @@ func c20NewSt() *c20St {
 }
 
 func (s *c20St) clone() *c20St {
-	c := &c20St{env: make(map[types.Object]c20V, len(s.env)), facts: make(map[string]bool, len(s.facts)), ctl: s.ctl, why: s.why, whyAt: s.whyAt, retAt: s.retAt}
+	c := &c20St{env: make(map[types.Object]c20V, len(s.env)), facts: make(map[string]bool, len(s.facts)), ctl: s.ctl, lbl: s.lbl, why: s.why, whyAt: s.whyAt, retAt: s.retAt}
 	for k, v := range s.env {
 		c.env[k] = v
 	}
